@@ -30,6 +30,19 @@ def generate(rng: random.Random, tier: str):
             for _ in range(8 if quick else 40):
                 st = S.adversarial_step(rng, g, doc, docs)
                 yield S.apply_case(fam, doc, st, True, "primitive")[0]
+        # node-mark steps on nodes that already carry marks, one per mark type: displacement by exclusion
+        from prosemirror.transform import AddNodeMarkStep, RemoveNodeMarkStep
+        sc_ = gen.family(fam)
+        for doc in docs[: (4 if quick else 40)]:
+            marked = [(p, nd) for p, nd in S.all_positions_with_nodes(doc) if not nd.is_text and nd.marks]
+            for p, nd in marked[: (3 if quick else 10)]:
+                for mt in sc_.marks.values():
+                    try:
+                        m = mt.create({k: "foo" for k, at in mt.attrs.items() if not at.has_default} or None)
+                    except ValueError:
+                        continue
+                    yield S.apply_case(fam, doc, AddNodeMarkStep(p, m), True, "node-mark-on-marked")[0]
+                yield S.apply_case(fam, doc, RemoveNodeMarkStep(p, rng.choice(nd.marks)), True, "node-mark-on-marked")[0]
         # mark-heavy documents: histories of mark operations (the inverse of a mark step is only exact
         # because of how add_mark / remove_mark plan their steps), and node-mark steps on marked nodes
         from prosemirror.transform import Transform
@@ -63,4 +76,13 @@ def classify(case):
     # when the original step inserted content
     if any(_structure_inverse(s) for s in steps):
         return "C04-structure-flag-inverse"
+    # known upstream semantics: AddNodeMarkStep.invert re-adds the displaced mark, which only restores the old
+    # set when the displaced mark also excludes the new one (mutual exclusion)
+    sc = gen.family(d["family"])
+    for s in steps:
+        st, inv = s["step"], s["invert"]
+        if st["type"] == "AddNodeMarkStep" and isinstance(inv, dict) and inv["type"] == "AddNodeMarkStep":
+            new_t, old_t = sc.marks[st["mark"]["type"]], sc.marks[inv["mark"]["type"]]
+            if new_t != old_t and new_t.excludes(old_t) and not old_t.excludes(new_t):
+                return "C04-node-mark-one-sided-exclusion"
     return None
